@@ -40,4 +40,99 @@ theorem leBytes_ofLeBytes (bs : List UInt8) : leBytes bs.length (ofLeBytes bs) =
     rw [h1, h2, ih]
     simp
 
+theorem pow256 (w : Nat) : 256 ^ w = 2 ^ (8 * w) := by
+  rw [Nat.pow_mul]
+
+theorem two_pow_split (w : Nat) (hw : 0 < w) : 2 ^ (8 * w) = 2 * 2 ^ (8 * w - 1) := by
+  have : 8 * w = (8 * w - 1) + 1 := by omega
+  conv => lhs; rw [this, Nat.pow_succ]
+  omega
+
+/-- **Every in-range integer survives write → read exactly** (any width `w ≥ 1`;
+the code uses 2, 4 and 8): the general theorem covers all 65 536 two-byte
+values, all 2^32 and all 2^64, not a sample. -/
+theorem decode_encode (w : Nat) (n : Int) (hw : 0 < w)
+    (hlo : -(2 ^ (8 * w - 1) : Int) ≤ n) (hhi : n < 2 ^ (8 * w - 1)) :
+    (encodeInt w n).bind (decodeInt w) = some n := by
+  have hH : ((2 ^ (8 * w - 1) : Nat) : Int) = (2 : Int) ^ (8 * w - 1) := by norm_cast
+  have hT : ((2 ^ (8 * w) : Nat) : Int) = (2 : Int) ^ (8 * w) := by norm_cast
+  have hsplit := two_pow_split w hw
+  have hsplitI : (2 : Int) ^ (8 * w) = 2 * (2 : Int) ^ (8 * w - 1) := by
+    rw [← hT, ← hH, hsplit]; norm_cast
+  generalize hHn : (2 ^ (8 * w - 1) : Nat) = H at *
+  generalize hHi : (2 : Int) ^ (8 * w - 1) = HI at *
+  have hcond : (decide (-HI ≤ n) && decide (n < HI)) = true := by simp [hlo, hhi]
+  simp only [encodeInt, hHi, hcond, if_true, Option.bind_some, decodeInt, length_leBytes,
+    Nat.lt_irrefl, if_false]
+  have htake : (leBytes w (if n ≥ 0 then n.toNat else (n + 2 ^ (8 * w)).toNat)).take w =
+      leBytes w (if n ≥ 0 then n.toNat else (n + 2 ^ (8 * w)).toNat) := by
+    apply List.take_of_length_le; rw [length_leBytes]; exact Nat.le_refl _
+  rw [htake, ofLeBytes_leBytes, pow256]
+  by_cases hn : n ≥ 0
+  · simp only [hn, if_true]
+    have h1 : n.toNat < 2 ^ (8 * w) := by omega
+    rw [Nat.mod_eq_of_lt h1]
+    have h2 : n.toNat < H := by omega
+    simp [hHn, h2]
+    omega
+  · simp only [hn, if_false]
+    have h0 : (n + 2 ^ (8 * w)).toNat = (n + 2 * HI).toNat := by rw [hsplitI]
+    have h1 : (n + 2 * HI).toNat < 2 ^ (8 * w) := by omega
+    rw [h0, Nat.mod_eq_of_lt h1]
+    have h2 : ¬ (n + 2 * HI).toNat < H := by omega
+    simp [hHn, h2]
+    omega
+
+/-- **Every byte pattern survives read → write unchanged** (all 65 536 two-byte
+patterns, and every 4- and 8-byte pattern) -/
+theorem encode_decode (bs : List UInt8) (hw : 0 < bs.length) :
+    (decodeInt bs.length bs).bind (encodeInt bs.length) = some bs := by
+  have hH : ((2 ^ (8 * bs.length - 1) : Nat) : Int) = (2 : Int) ^ (8 * bs.length - 1) := by norm_cast
+  have hT : ((2 ^ (8 * bs.length) : Nat) : Int) = (2 : Int) ^ (8 * bs.length) := by norm_cast
+  have hsplit := two_pow_split bs.length hw
+  have hsplitI : (2 : Int) ^ (8 * bs.length) = 2 * (2 : Int) ^ (8 * bs.length - 1) := by
+    rw [← hT, ← hH, hsplit]; norm_cast
+  have hlt := ofLeBytes_lt bs
+  rw [pow256] at hlt
+  simp only [decodeInt, Nat.lt_irrefl, if_false, List.take_length, Option.bind_some]
+  generalize hu : ofLeBytes bs = u at *
+  generalize hHn : (2 ^ (8 * bs.length - 1) : Nat) = H at *
+  generalize hHi : (2 : Int) ^ (8 * bs.length - 1) = HI at *
+  by_cases hs : u < H
+  · simp only [hs, if_true, encodeInt, hHi]
+    have hcond : (decide (-HI ≤ (u : Int)) && decide ((u : Int) < HI)) = true := by
+      simp; omega
+    simp only [hcond, if_true]
+    have : (u : Int) ≥ 0 := by omega
+    simp only [this, if_true, Int.toNat_natCast]
+    rw [← hu, leBytes_ofLeBytes]
+  · simp only [hs, if_false, encodeInt, hHi]
+    have hcond : (decide (-HI ≤ (u : Int) - 2 ^ (8 * bs.length)) && decide ((u : Int) - 2 ^ (8 * bs.length) < HI)) = true := by
+      simp; omega
+    simp only [hcond, if_true]
+    have : ¬ ((u : Int) - 2 ^ (8 * bs.length) ≥ 0) := by omega
+    simp only [this, if_false]
+    have e : ((u : Int) - 2 ^ (8 * bs.length) + 2 ^ (8 * bs.length)).toNat = u := by
+      simp
+    rw [e, ← hu, leBytes_ofLeBytes]
+
+/-- the width table read from the code: 2 ↦ 16 bits, 4 ↦ 32, 8 ↦ 64, for
+integers and floats (breaks the build if `TYPES` changes) -/
+theorem widths : intWidthBits 2 = 16 ∧ intWidthBits 4 = 32 ∧ intWidthBits 8 = 64 ∧
+    floatWidthBits 2 = 16 ∧ floatWidthBits 4 = 32 ∧ floatWidthBits 8 = 64 := by decide
+
+/-- missing numbers are stored as zero: `w` zero bytes -/
+theorem missing_int_is_zero (f : Field) (hk : f.kind = .int) :
+    renderBin f .none = .ok (leBytes (intWidthBits f.size / 8) 0) := by
+  simp [renderBin, hk, Val.isNull]
+
+/-- missing text is stored as blanks -/
+theorem missing_text_is_blank (f : Field) (hk : f.kind = .lit) :
+    renderBin f .none = .ok (List.replicate f.size 32) := by
+  simp [renderBin, hk, Val.isNull]
+
+/-- non-vacuity -/
+example : (encodeInt 2 (-2)).bind (decodeInt 2) = some (-2) ∧ encodeInt 2 (-2) = some [254, 255] ∧
+    encodeInt 2 32768 = none ∧ decodeInt 2 [0x20, 0x20] = some 8224 := by decide
+
 end Props.C09
